@@ -309,15 +309,18 @@ Definition dec_cps (z : Z) : list N :=
 Definition opt_add (a b : option N) : option N :=
   match a, b with Some x, Some y => Some (x + y)%N | _, _ => None end.
 
-(* the masked byte sum of the SEN text of one object; None = not modelled (floats and ratios, whose text
-   is strconv's shortest float formatting, and strings with escaped characters) *)
+(* the masked byte sum of the SEN text of one object; None = not modelled (floats and the ratios that are
+   exactly a float64, whose text is strconv's shortest float formatting, and strings with escaped characters) *)
 Fixpoint hsum (x : obj) : option N :=
   match x with
   | Nil => Some (mask_sum [110; 117; 108; 108])%N                       (* null *)
   | Tru => Some (mask_sum [116; 114; 117; 101])%N                       (* true *)
   | Fix z => Some (mask_sum (dec_cps z))
   | Big z => if int64_ok z then Some (mask_sum (dec_cps z)) else hash_string (dec_cps z)
-  | Rat _ _ | Flt _ _ _ => None
+  | Rat n d =>                                                           (* Ratio.Simplify *)
+      if dy_is_rat (rne 53 n d) n d then None                             (* exactly a float64: strconv's text *)
+      else hash_string (dec_cps n ++ 47%N :: dec_cps d)                   (* the printed n/d as a string *)
+  | Flt _ _ _ => None
   | Chr c => hash_string [c]
   | Str s => hash_string s
   | Sym s => hash_string s
